@@ -161,6 +161,15 @@ CHECKS = {
         "Trusted: the in-process fake of dbutils.fs (documented semantics).",
         "DESIGN.md 5/C19",
     ),
+    "C18": (
+        "exploration",
+        "Hypothesis-generated programs and load pipelines; graph exported in graphviz plain format, parsed and compared with edges "
+        "derived from the program model; metamorphic comparison of value/signatures with and without export",
+        "Every generated pipeline is evaluated with the export (analysis-only, full, debug on/off) and without; node and edge sets are "
+        "compared exactly (solid, dashed) or against an allowed set (dotted).",
+        "Trusted: the model's derivation of the expected edges; graphviz dot renders what pydotplus is given.",
+        "DESIGN.md 5/C18",
+    ),
 }
 
 NOT_YET = {}
